@@ -41,6 +41,8 @@ def make():
             "forall(0, len(result), lambda k: implies(k < 9, result[k] == k + 1))",
         ],
         returns="seq[int]", modifies=[],
+        # `increment` / `out` are roles: the running offset and the result list initialised by the first two statements
+        bind_locals={"increment": (0, 0), "out": (1, 0)},
     )]
 
 
